@@ -26,7 +26,7 @@ theorem framing_roundtrip (fs : List Frame) (h : ∀ f ∈ fs, f.clean) :
 
 /-- **framing_roundtrip (⇔)**: a stream recording reads back as exactly the frames that were written, without error,
 IF AND ONLY IF every component (database, retention policy, line) is clean: no line feed, no carriage return at its
-end, shorter than the Scanner's 64 KiB token limit. (⇒ by counting lines: every line feed inside a component adds a
+end, shorter than the Scanner's token limit (64 MiB since 45d6388). (⇒ by counting lines: every line feed inside a component adds a
 line, so the reader cannot come back with the same number of frames.) -/
 theorem framing_roundtrip_iff (fs : List Frame) :
     readFrames maxTok (writeFrames fs) = (fs, true) ↔ ∀ f ∈ fs, f.clean :=
@@ -50,6 +50,23 @@ theorem framing_newline_in_db_reframes :
 theorem framing_trailing_cr_dropped :
     readFrames maxTok (writeFrames [⟨[100, 13], [114], [109]⟩]) = ([⟨[100], [114], [109]⟩], true) := by
   decide
+
+/-- Counterexample for the snapshot's Scanner limit (64 KiB, repaired by 45d6388): a record whose line has 65536
+bytes or more stops the scan with `ErrTooLong`; the reader delivers nothing of it and reports an error. With the
+limit of the repaired code (64 MiB) the same record is scanned. -/
+theorem scanner_limit_before_fix (db rp line : Bytes) (hdb : db.length < 65536) (hrp : rp.length < 65536)
+    (h : 65536 ≤ line.length) (h' : line.length < maxTok) :
+    (frames (scanLines maxTokOld [db, rp, line]).1 (scanLines maxTokOld [db, rp, line]).2 = ([], false)) ∧
+    (frames (scanLines maxTok [db, rp, line]).1 (scanLines maxTok [db, rp, line]).2 = ([⟨dropCR db, dropCR rp, dropCR line⟩], true)) := by
+  have a1 : ¬ db.length ≥ maxTokOld := by unfold maxTokOld; omega
+  have a2 : ¬ rp.length ≥ maxTokOld := by unfold maxTokOld; omega
+  have a3 : line.length ≥ maxTokOld := by unfold maxTokOld; omega
+  have b1 : ¬ db.length ≥ maxTok := by unfold maxTok; omega
+  have b2 : ¬ rp.length ≥ maxTok := by unfold maxTok; omega
+  have b3 : ¬ line.length ≥ maxTok := by omega
+  constructor
+  · simp [scanLines, a1, a2, a3, frames]
+  · simp [scanLines, b1, b2, b3, frames]
 
 /-! ### Stream record → replay -/
 
